@@ -4,6 +4,22 @@ import json, os
 V = os.path.dirname(os.path.dirname(os.path.abspath(__file__)))
 ALL = ["C%02d" % i for i in range(1, 19)]
 CHECKS = {
+ "C02": dict(cat="fault_enumeration", ref="5 C02",
+   text="Thousands of short histories (developer edits incl. deleting the highest-numbered statement, check/edit runs, edit runs with an injected errno, stop signal or kill at a seeded operation) are executed against the real binary; a checker-side ghost map id->first statement marker and the lock file are compared after every run: no id may ever belong to two statements and after every edit run the lock must exceed every id ever written. Violating histories are shrunk to minimal ones.",
+   note="Unique statement markers make the history unambiguous (regex scan independent of Breadlog's parser); histories in which the harness removes the lock are not generated.",
+   tech="runtime monitoring: history generation with fault/signal/kill injection (LD_PRELOAD shim) + offline ghost-state invariant checker"),
+ "C07": dict(cat="fault_enumeration", ref="5 C07",
+   text="For each driven project every filesystem operation of the (re-measured, deterministic) clean run is a crash/fault point: kill before, kill after, and every errno its kind admits (EIO/ENOSPC/EACCES/EROFS/EDQUOT/EMFILE/EXDEV, short write) are injected in fresh sandboxes; each source file must afterwards be byte-identical to its original or to its complete update. Exhaustive per small project, sampled writes for >64 KiB / >1 MiB files; the shim is audited against strace for blind spots in every run.",
+   note="Crash = process death, not power loss; rename(2) atomicity trusted; shim coverage audited by strace.",
+   tech="runtime monitoring: exhaustive per-operation crash/fault injection (LD_PRELOAD shim) + post-state oracle + trace rule"),
+ "C08": dict(cat="fault_enumeration", ref="5 C08",
+   text="Single, persistent, subset-scoped and double failures of temp-file creation, temp writes and renames (plus a genuine cross-device TMPDIR) are injected; a fired failure on an update operation must give a non-zero exit, an exit 0 must agree with the tokens on disk and a follow-up --check, and a normally exiting run must leave TMPDIR empty.",
+   note="Short writes are not failures; faults hitting the cleanup unlink itself exempt the leftover clause.",
+   tech="runtime monitoring: fault injection (LD_PRELOAD shim, real EXDEV) + exit-status/disk-state oracle"),
+ "C18": dict(cat="fault_enumeration", ref="5 C18",
+   text="SIGTERM and SIGINT are raised by the shim immediately before every filesystem operation of check and edit runs (exhaustive per project) and asynchronously by kill(2) at seeded random delays over a 150/300-file tree; the process must not die from the signal once discovery has begun, must not exit 0 with work left, must not start another file after the one in progress (shim log), must leave every source file original or complete and the lock above every id on disk.",
+   note="'Moment' = operation boundary (synchronous, exhaustive) or sampled wall-clock instant (asynchronous); start-up window before the handlers exist exempt iff nothing modified.",
+   tech="runtime monitoring: per-operation signal injection (LD_PRELOAD shim) + asynchronous kill(2) + event-log oracle"),
  "C01": dict(cat="exploration", ref="5 C01",
    text="Edit runs over generated trees cycling through ID-space classes (none, {0}, dense, gaps, duplicates, 2^31/2^16 boundaries, u32::MAX-k) x lock states (absent, disabled with stale lock, consistent) x style; inserted IDs (from the insertion decomposition) are checked for uniqueness, disjointness from existing IDs, range and ordering, and an exhausted range must end in a failing run. Thorough adds a build with integer-overflow checks (arithmetic sanitizer) and the real-code corpora.",
    note="Generator record of existing IDs; decomposition identifies inserted IDs; handing out the very last ID may be refused.",
